@@ -335,6 +335,11 @@ def sim_monitor(ctx, ana, case):
             continue
         nxt = els[i + 1] if i + 1 < len(els) else None
         is_master = nxt is not None and nxt['rel']['type'] in ('gear', 'worm')       # the last mating declared on this gear made it master
+        if te.get('role') in ('MatingMaster', 'MatingSlave') and e['rel']['type'] in ('gear', 'worm') and is_master:
+            # a gear between two matings (idler): its public `mating_role` is the one of the mating declared LAST, and the order of
+            # the declarations is free (sim/build.py declare_order, earlier designs, re-declared pairs): the formulas are stated
+            # per role, so the role is read from the public attribute (C10 judges roles where they are assigned)
+            is_master = te['role'] == 'MatingMaster'
         mate = nxt if is_master else els[i - 1]
         ref_series = te['vars']['load torque'] if is_master else te['vars']['driving torque']
         D1 = q(e['module']) * e['z']
